@@ -7,7 +7,7 @@ import os
 import tempfile
 
 from harness import common as C
-from harness import gen, model, ref
+from harness import gen, metasteps, model, ref
 
 OPTS = dict(meta_keys=['key_transform_with_dump', 'marshal_date_time_as_iso', 'skip_defaults_off'],
             leaves=gen.LEAVES_DEFAULT)
@@ -70,7 +70,57 @@ def make_case(rng):
     ty['info']['meta'] = meta
     if ty['info']['wizard'] and rng.random() < 0.25:
         ty['info']['wizard'] = 'file'
+    if rng.random() < 0.3:
+        ty['info']['meta_bindings'] = spread_bindings(rng, ty)
     return ty
+
+
+def _cls_nodes(t, out):
+    k = t['k']
+    if k == 'cls':
+        out.setdefault(t['info']['name'], []).append(t)
+        for _, ft in t['ftys']:
+            _cls_nodes(ft, out)
+    elif k in ('namedtuple', 'typeddict'):
+        for f in t['fields']:
+            _cls_nodes(f[1], out)
+    else:
+        for x in t.get('a', []):
+            _cls_nodes(x, out)
+    return out
+
+
+NEUTRAL_ROOT = [{'v1': True}, {'skip_defaults': False}, {'v1_unsafe_parse_dataclass_in_union': False}, {'recursive': True}]
+
+
+def spread_bindings(rng, ty):
+    """DIMENSION the Meta of the main class / of nested classes / of tagged Union members arrives in two or more bindings, in any order
+    (harness/metasteps.py): inner Meta, JSONPyWizard (implicit DumpMeta(key_transform='NONE') first, inner Meta second — for the main class only
+    when it names its dump transform, for nested classes only below a main class that dumps keys as they are, so that the pair stays consistent),
+    LoadMeta / DumpMeta / hand-made Metas bound after the class statement; a member's tag mostly in a later binding (sometimes overriding a stale
+    one), the main class's (v1_key_case, dump transform) pair split over the bindings or overriding a stale pair given by an earlier one.
+    The consistent pair and the tags are those of the merged result (later wins).  -> {class name: label}"""
+    root_meta = ty['info']['meta']
+    labels = {}
+    for name, group in _cls_nodes(ty, {}).items():
+        info = group[0]['info']
+        if info.get('wizard', True) not in (True, False, 'file'):
+            continue
+        if group[0] is ty:
+            if rng.random() < 0.7:
+                stale = {'v1_key_case': rng.choice(['CAMEL', 'PASCAL', 'KEBAB', 'SNAKE', 'AUTO']), 'key_transform_with_dump': rng.choice(gen.CASES)}
+                labels[name] = metasteps.distribute(rng, info, NEUTRAL_ROOT, stale=stale, late=(), py_ok='key_transform_with_dump' in root_meta,
+                                                    together={'v1_key_case': {'v1': True}})
+        elif rng.random() < 0.6:
+            tag = (info.get('meta') or {}).get('tag')
+            labels[name] = metasteps.distribute(rng, info, metasteps.NEUTRAL_V1, stale={'tag': tag + '~old'} if tag else None,
+                                                avoid={'key_transform_with_dump', 'v1_key_case'},
+                                                py_ok=root_meta.get('key_transform_with_dump') == 'NONE')
+        for other in group[1:]:        # the same class referenced twice (reversed Union): one definition
+            for k_ in ('wizard', 'meta', 'meta_steps'):
+                if k_ in info:
+                    other['info'][k_] = info[k_]
+    return labels
 
 
 def load_outcome(fn):
@@ -172,6 +222,8 @@ def run(ctx: C.Ctx):
                 continue
             case = {'ty': ty, 'inst': repr(x)[:500]}
             ctx.seen('roundtrip', case)
+            if ty['info'].get('meta_bindings'):
+                ctx.seen('roundtrip:meta-in-steps', case)
             Cls = built.root
             src = dict(src=built.source)
             try:
@@ -211,6 +263,7 @@ def run(ctx: C.Ctx):
             built.close()
     shared_histories(ctx, reqs, pend)
     spellings(ctx, reqs, pend)
+    inheritance_histories(ctx, reqs, pend)
     if ctx.model_available:
         outs = ctx.driver.run(reqs)
         for (case, impl_out, built), o in zip(pend, outs):
@@ -325,6 +378,158 @@ def shared_histories(ctx, reqs, pend):
                     continue
                 out_j = load_outcome(lambda: fromdict(Cls, jd))
                 check_rt(ctx, 'shared-history:jsonified', case, out_j, x, src, key, pre)
+                st = model.StdTables()
+                st.add_json(jd)
+                reqs.append({'op': 'loadv1', 'ty': model.enc_ty(ty), 'doc': model.enc_j(jd), 'std': st.build()})
+                pend.append((case, out_j, built))
+        finally:
+            built.close()
+
+
+# --------------------------------------------------------------------------- v1 dataclasses related by inheritance
+
+IH_BASE = 3_000_000
+
+
+def _pair_meta(rng):
+    kc, dump = rng.choice(PAIRS)
+    meta = {'v1': True}
+    if kc is not None:
+        meta['v1_key_case'] = kc
+    if dump is not None:
+        meta['key_transform_with_dump'] = dump
+    return meta, (kc, dump)
+
+
+def _plain_steps(rng, meta):
+    """Meta of a plain dataclass: one hand-made Meta, or DumpMeta (dump transform) and LoadMeta (v1, key case) in either order"""
+    if rng.random() < 0.4 or 'key_transform_with_dump' not in meta:
+        return [{'via': rng.choice(['base', 'load']), 'meta': dict(meta)}]
+    st = [{'via': 'dump', 'meta': {'key_transform_with_dump': meta['key_transform_with_dump']}},
+          {'via': 'load', 'meta': {k: v for k, v in meta.items() if k != 'key_transform_with_dump'}}]
+    rng.shuffle(st)
+    return st
+
+
+def inherit_case(rng):
+    """(holder, [class models], steps, style): a base dataclass and 1-3 classes derived from it (siblings; chains too for plain dataclasses),
+    every derived class adding 1-3 fields of its own over the C02 grammar.
+    style 'wizard': Base(JSONWizard) declares the inner Meta (v1, one consistent pair), the derived classes declare none and take the Meta of
+    their immediate base class; 'plain': plain dataclasses, each class bound on its own with LoadMeta / DumpMeta / a hand-made Meta — the same
+    consistent pair, or another consistent pair per class.
+    Left out: a derived JSONWizard class that declares an inner Meta of its own (recorded finding, findings/ of C13: the base's Meta is bound over
+    it) and grandchildren of the declaring JSONWizard class (they do not take the grandparent's Meta — DESIGN 9.5).
+    steps: the order in which the classes are round-tripped, with repeats — a base class before the first load of a class derived from it, and
+    the other way round."""
+    T = model.T
+    o = gen.Opts(meta_keys=[], leaves=gen.LEAVES_DEFAULT + ['bytes', 'bytearray'], meta_prob=0.0, wizard_prob=0.0, py_wizard_prob=0.0, max_fields=3)
+    style = rng.choice(['wizard', 'plain', 'plain'])
+    meta, pair = _pair_meta(rng)
+    base = strip_shapes(gen.gen_cls(rng, rng.choice([0, 1, 1, 2]), o))
+    base['info']['wizard'] = (rng.choice([True, True, 'file']) if style == 'wizard' else False)
+    base['info']['meta'] = dict(meta)
+    if style == 'plain':
+        base['info']['meta_steps'] = _plain_steps(rng, meta)
+    chain = [base]
+    for _ in range(rng.randint(1, 3)):
+        parent = base if style == 'wizard' else rng.choice(chain)
+        own = strip_shapes(gen.gen_cls(rng, rng.choice([0, 0, 1, 2]), o))
+        used = {f['name'] for f in parent['info']['fields']}
+        pf = [dict(f) for f in parent['info']['fields']]
+        need_dflt = any(f.get('dflt') is not None for f in pf)
+        ofields, oftys = [], []
+        for f, (_n, ft) in zip(own['info']['fields'], own['ftys']):
+            f = dict(f)
+            if f['name'] in used or f['name'].lower() in {u.lower() for u in used}:
+                f['name'] = gen.field_name(rng, used)
+            used.add(f['name'])
+            if need_dflt and f.get('dflt') is None:
+                d = gen.simple_default_for(rng, ft)
+                if d is None:
+                    ft, d = (ft if ft['k'] == 'optional' else T('optional', ft)), ['lit', None]
+                f['dflt'], f['factory'] = d, d[0] != 'lit'
+            ofields.append(f)
+            oftys.append([f['name'], ft])
+        m2 = dict(meta)
+        # a derived class with a consistent pair of its own — unless one of its fields (inherited or own: its subclasses inherit them) holds a
+        # dataclass: a nested class reached through two main classes with different key settings is the recorded finding
+        # shared-nested-config-leak (findings/shared-nested-config-leak.py)
+        if style == 'plain' and rng.random() < 0.35 and not any(_cls_nodes(ft_, {}) for _n, ft_ in list(parent['ftys']) + oftys):
+            m2, _p = _pair_meta(rng)
+        info = {'name': model.fresh('D'), 'fields': pf + ofields, 'wizard': parent['info']['wizard'], 'meta': m2,
+                'meta_steps': [] if style == 'wizard' else _plain_steps(rng, m2), 'inherits': {'base': parent, 'n': len(pf)}}
+        chain.append({'k': 'cls', 'info': info, 'ftys': [list(p) for p in parent['ftys']] + oftys})
+    steps = [rng.randrange(len(chain)) for _ in range(rng.randint(3, 6))]
+    derived = [q_ for q_ in range(1, len(chain))]
+    if not any(s_ in derived for s_ in steps):
+        steps[rng.randrange(1, len(steps))] = rng.choice(derived)
+    if rng.random() < 0.6:
+        # an ancestor of the first derived class in the history goes first
+        fd = next(s_ for s_ in steps if s_ in derived)
+        anc = chain.index(chain[fd]['info']['inherits']['base'])
+        steps.insert(0, anc)
+    holder = {'k': 'cls', 'info': {'name': model.fresh('H'), 'fields': [{'name': f'm{i}'} for i in range(len(chain))], 'wizard': False, 'meta': None},
+              'ftys': [[f'm{i}', m] for i, m in enumerate(chain)]}
+    return holder, chain, steps, style, pair
+
+
+def inheritance_histories(ctx, reqs, pend):
+    """v1 dataclasses related by inheritance: whatever a base class (or a sibling, or a subclass) has been used for before, fromdict(D, asdict(x))
+    is a D with D's own fields, equal to x — the load function, the per-class tables and the function saved on a class belong to that class
+    alone, not to the classes derived from it"""
+    import random
+    from dataclass_wizard import asdict, fromdict
+    rng = random.Random(f'{ctx.prop_id}:{ctx.seed}:inherit')
+    n = ctx.quick(150, 2500)
+    ctx.rule += (' INHERITANCE: a base dataclass and 1-3 dataclasses derived from it (siblings / chains; JSONWizard hierarchy with the inner Meta '
+                 'inherited from the immediate base, or plain dataclasses each bound with LoadMeta / DumpMeta / a hand-made Meta, same or different '
+                 'consistent pairs), every class adding fields over the C02 grammar, round-tripped in a random order with repeats, base before '
+                 'derived and derived before base: every step gives an instance of exactly that class equal to x (dict, JSON text, from_json), '
+                 'and vs the Lean model of the flattened class.')
+    for j in range(n):
+        i = IH_BASE + j
+        if ctx.done(i):
+            break
+        holder, chain, steps, style, pair = inherit_case(rng)
+        try:
+            built = model.Built(holder)
+        except Exception as e:
+            ctx.count('build_error')
+            ctx.notes.setdefault('build_errors', []).append(repr(e)[:200])
+            continue
+        try:
+            tys = [chain[k] for k in steps]
+            xs = [gen.gen_instance(rng, t_, built) for t_ in tys]
+            if not ctx.begin_case(i):
+                continue
+            src = dict(src=built.source)
+            names = [c['info']['name'] for c in chain]
+            parents = {c['info']['name']: c['info']['inherits']['base']['info']['name'] for c in chain[1:]}
+            base = {'style': style, 'pair': list(pair), 'classes': names, 'derives_from': parents, 'steps': [names[k] for k in steps]}
+            ctx.seen('inherit-history', dict(base, tys=chain[1:], insts=[repr(x)[:200] for x in xs]))
+            first_derived = next(q_ for q_, k in enumerate(steps) if k > 0)
+            ctx.seen('inherit-history:' + ('ancestor-first' if any(names[k] == parents[names[steps[first_derived]]] for k in steps[:first_derived])
+                                           else 'derived-first'), base)
+            for step, (ty, x) in enumerate(zip(tys, xs)):
+                Cls = built.get(ty['info']['name'])
+                case = dict(base, step=step, ty=ty, inst=repr(x)[:500])
+                try:
+                    d = asdict(x)
+                except Exception as e:
+                    ctx.fail('inherit-history:dump', case, f'step {step}: asdict raised {e!r}', detail=src)
+                    continue
+                key = _known_key(x)
+                out = load_outcome(lambda: fromdict(Cls, d))
+                pre = f'step {step} of {base["steps"]} ({ty["info"]["name"]}, {style}, derives_from {parents}): '
+                check_rt(ctx, 'inherit-history:dict', case, out, x, src, key, pre)
+                try:
+                    jd = json.loads(json.dumps(d))
+                except Exception:
+                    continue
+                out_j = load_outcome(lambda: fromdict(Cls, jd))
+                check_rt(ctx, 'inherit-history:jsonified', case, out_j, x, src, key, pre)
+                if hasattr(Cls, 'from_json'):
+                    check_rt(ctx, 'inherit-history:json', case, load_outcome(lambda: Cls.from_json(x.to_json())), x, src, key, pre)
                 st = model.StdTables()
                 st.add_json(jd)
                 reqs.append({'op': 'loadv1', 'ty': model.enc_ty(ty), 'doc': model.enc_j(jd), 'std': st.build()})
